@@ -156,9 +156,208 @@ SysCase(n) ==
   LET idx == (Seed0 * 97 + n * Stride) % SysTotal
   IN [id |-> "s" \o ToString(idx), prog |-> SysRule(idx % NTemplates, idx \div NTemplates)]
 
+\* nested terms of depth 2 in head, body literal and comparison position
+S2 == <<"X", "1", "2">>
+NestTotalTerms == 3 + 54 + 972 + 972
+NestTerm(i) ==
+  IF i < 3 THEN "-(-(" \o S2[i + 1] \o "))"
+  ELSE IF i < 57 THEN LET j == i - 3 IN "-(" \o S2[((j \div 3) % 3) + 1] \o " " \o SOps[(j \div 9) + 1] \o " " \o S2[(j % 3) + 1] \o ")"
+  ELSE LET j == (i - 57) % 972
+           left == i - 57 < 972
+           op1 == SOps[(j \div 162) + 1]
+           op2 == SOps[((j \div 27) % 6) + 1]
+           a == S2[((j \div 9) % 3) + 1]
+           b == S2[((j \div 3) % 3) + 1]
+           c == S2[(j % 3) + 1]
+           inner == "(" \o a \o " " \o op1 \o " " \o b \o ")"
+       IN IF left THEN "(" \o inner \o " " \o op2 \o " " \o c \o ")" ELSE "(" \o c \o " " \o op2 \o " " \o inner \o ")"
+NestCase(n) ==
+  LET idx == (Seed0 * 89 + n * Stride) % (3 * NestTotalTerms)
+      t == NestTerm(idx \div 3)
+      k == idx % 3
+  IN [id |-> "n" \o ToString(idx),
+      prog |-> IF k = 0 THEN "p(" \o t \o ") :- q(X)."
+               ELSE IF k = 1 THEN "r(X) :- q(X), p(" \o t \o ")."
+               ELSE "r(X) :- q(X), " \o t \o " " \o Rels[((idx \div 3) % 6) + 1] \o " 1."]
+
+\* every pair of adversarial variable names in the positions where the translators pick fresh names
+NPool == Len(VarPool)
+NameCase(n) ==
+  LET idx == (Seed0 * 83 + n * Stride) % (8 * NPool * NPool)
+      a == VarPool[((idx \div 8) \div NPool) + 1]
+      b == VarPool[((idx \div 8) % NPool) + 1]
+      k == idx % 8
+      dom == IF a = b THEN "q(" \o a \o ")" ELSE "q(" \o a \o "), q(" \o b \o ")"
+  IN [id |-> "v" \o ToString(idx),
+      prog |-> CASE k = 0 -> "t(" \o a \o ", " \o b \o ") :- " \o dom \o "."
+                 [] k = 1 -> "s :- t(" \o a \o ", " \o b \o ")."
+                 [] k = 2 -> "s :- " \o dom \o ", " \o a \o " < " \o b \o " + 1."
+                 [] k = 3 -> "p(" \o a \o " / " \o b \o ") :- " \o dom \o "."
+                 [] k = 4 -> "p(" \o a \o " .. " \o b \o ") :- " \o dom \o "."
+                 [] k = 5 -> "s :- " \o dom \o ", not t(" \o a \o " + 1, " \o b \o " \\ 2)."
+                 [] k = 6 -> "{t(" \o a \o " * 2, " \o b \o ")} :- " \o dom \o "."
+                 [] k = 7 -> "p(" \o a \o ") :- " \o dom \o ", " \o a \o " = 1 .. " \o b \o ". p(" \o b \o ", " \o a \o ", 1) :- " \o dom \o "."]
+
+\* ---------------------------------------------------------------- sigma_0 formulas
+Small == Mode \in {"subst", "redex"}       \* substitution cases want collisions: tiny variable pools
+GVars == IF Small THEN <<"X", "Y", "Y1">> ELSE <<"X", "Y", "Z", "V1", "Y1">>
+IVars == IF Small THEN <<"N$i", "X$i", "N1$i">> ELSE <<"N$i", "I$i", "X$i", "J$i", "Y$i">>      \* X$i / Y$i: same name as a general variable, other sort
+SVars == IF Small THEN <<"X$s", "S$s">> ELSE <<"S$s", "X$s">>
+FNums == <<"0", "1", "2", "-1", "3">>
+FSyms == <<"a", "b">>
+IOps == <<"+", "-", "*">>
+FPreds == <<"p", "q", "hp", "p">>
+Conns == <<"and", "or", "->", "<-", "<->", "and", "or", "->">>
+
+IntLeaf(sd) ==
+  IF Val(sd) % 100 < 55 THEN [s |-> Pick(Nx(sd), IVars), sd |-> Nx(Nx(sd))]
+  ELSE [s |-> Pick(Nx(sd), FNums), sd |-> Nx(Nx(sd))]
+RECURSIVE IntTerm(_, _)
+IntTerm(sd, d) ==
+  LET c == Val(sd) % 100
+      s1 == Nx(sd)
+  IN IF d = 0 \/ c < 50 THEN IntLeaf(s1)
+     ELSE IF c < 58 THEN LET a == IntTerm(s1, d - 1) IN [s |-> "-(" \o a.s \o ")", sd |-> a.sd]
+     ELSE LET op == Pick(s1, IOps) a == IntTerm(Nx(s1), d - 1) b == IntTerm(a.sd, d - 1)
+          IN [s |-> "(" \o a.s \o " " \o op \o " " \o b.s \o ")", sd |-> b.sd]
+GenTerm(sd, d) ==
+  LET c == Val(sd) % 100
+      s1 == Nx(sd)
+  IN IF c < 35 THEN [s |-> Pick(s1, GVars), sd |-> Nx(s1)]
+     ELSE IF c < 68 THEN IntTerm(s1, d)
+     ELSE IF c < 80 THEN [s |-> Pick(s1, FSyms), sd |-> Nx(s1)]
+     ELSE IF c < 88 THEN [s |-> Pick(s1, SVars), sd |-> Nx(s1)]
+     ELSE IF c < 94 THEN [s |-> "#inf", sd |-> s1]
+     ELSE [s |-> "#sup", sd |-> s1]
+RECURSIVE Guards(_, _, _)
+Guards(sd, n, d) ==
+  IF n = 0 THEN [s |-> "", sd |-> sd]
+  ELSE LET rel == Pick(sd, Rels) t == GenTerm(Nx(sd), d) r == Guards(t.sd, n - 1, d)
+       IN [s |-> " " \o rel \o " " \o t.s \o r.s, sd |-> r.sd]
+FAtomic(sd, d) ==
+  LET c == Val(sd) % 100
+      s1 == Nx(sd)
+  IN IF c < 38 THEN LET p == Pick(s1, FPreds) t == GenTerm(Nx(s1), d) IN [s |-> p \o "(" \o t.s \o ")", sd |-> t.sd]
+     ELSE IF c < 46 THEN LET a == GenTerm(s1, d) b == GenTerm(a.sd, d) IN [s |-> "t(" \o a.s \o ", " \o b.s \o ")", sd |-> b.sd]
+     ELSE IF c < 54 THEN [s |-> "r", sd |-> s1]
+     ELSE IF c < 90 THEN LET t == GenTerm(s1, d)
+                             ng == IF Val(t.sd) % 10 < 7 THEN 1 ELSE IF Val(t.sd) % 10 < 9 THEN 2 ELSE 3
+                             g == Guards(Nx(t.sd), ng, d)
+                         IN [s |-> t.s \o g.s, sd |-> g.sd]
+     ELSE IF c < 95 THEN [s |-> "#true", sd |-> s1]
+     ELSE [s |-> "#false", sd |-> s1]
+QVars(sd) ==
+  LET pool == IF Small THEN <<"X", "Y", "Y1", "N$i", "X$i", "N1$i", "Y", "X$s", "Y2", "S$s">>
+              ELSE <<"X", "Y", "Z", "N$i", "I$i", "X$i", "S$s", "Y1", "V1", "J$i">>
+      a == Pick(sd, pool)
+      b == Pick(Nx(sd), pool)
+  IN [s |-> IF Val(Nx(Nx(sd))) % 3 = 0 THEN a \o " " \o b ELSE a, sd |-> Nx(Nx(Nx(sd)))]
+RECURSIVE Form(_, _, _)
+Form(sd, d, td) ==
+  LET c == Val(sd) % 100
+      s1 == Nx(sd)
+  IN IF d = 0 \/ c < 22 THEN FAtomic(s1, td)
+     ELSE IF c < 32 THEN LET a == Form(s1, d - 1, td) IN [s |-> "not (" \o a.s \o ")", sd |-> a.sd]
+     ELSE IF c < 78 THEN LET op == Pick(s1, Conns) a == Form(Nx(s1), d - 1, td) b == Form(a.sd, d - 1, td)
+                         IN [s |-> "(" \o a.s \o " " \o op \o " " \o b.s \o ")", sd |-> b.sd]
+     ELSE LET q == IF c < 89 THEN "forall" ELSE "exists"
+              v == QVars(s1)
+              a == Form(v.sd, d - 1, td)
+          IN [s |-> q \o " " \o v.s \o " (" \o a.s \o ")", sd |-> a.sd]
+
+FormulaCase(n, sd) == [id |-> "f" \o ToString(n), f |-> Form(sd, Depth, 1).s]
+
+\* substitution triples: variable and a sort-compatible term (C17)
+SubstCase(n, sd) ==
+  LET f == Form(sd, Depth, 1)
+      kk == Val(f.sd) % 10
+      k == IF kk < 6 THEN 0 ELSE IF kk < 9 THEN 1 ELSE 2
+      v == IF k = 0 THEN Pick(Nx(f.sd), <<"X", "X", "Y">>) ELSE IF k = 1 THEN Pick(Nx(f.sd), <<"N$i", "X$i">>) ELSE Pick(Nx(f.sd), SVars)
+      s2 == Nx(Nx(f.sd))
+      t == IF k = 0 THEN GenTerm(s2, 1) ELSE IF k = 1 THEN IntTerm(s2, 2)
+           ELSE [s |-> Pick(s2, <<"a", "S$s", "X$s", "b">>), sd |-> Nx(s2)]
+  IN [id |-> "u" \o ToString(n), f |-> f.s, var |-> v, term |-> t.s]
+
+\* ---------------------------------------------------------------- simplifier redexes (C07, C18)
+\* the left-hand sides of anthem's rewrite rules, instantiated with arbitrary sub-formulas and terms
+NRedex == 50
+Redex(k, F, G, T, U, I, J) ==
+  CASE k = 0 -> "(" \o F \o " and #true)"
+    [] k = 1 -> "(#true and " \o F \o ")"
+    [] k = 2 -> "(" \o F \o " or #false)"
+    [] k = 3 -> "(#false or " \o F \o ")"
+    [] k = 4 -> "(#true -> " \o F \o ")"
+    [] k = 5 -> "(" \o F \o " or #true)"
+    [] k = 6 -> "(" \o F \o " and #false)"
+    [] k = 7 -> "(" \o F \o " -> #true)"
+    [] k = 8 -> "(#false -> " \o F \o ")"
+    [] k = 9 -> "(" \o F \o " -> " \o F \o ")"
+    [] k = 10 -> "(" \o F \o " and " \o F \o ")"
+    [] k = 11 -> "(" \o F \o " or " \o F \o ")"
+    [] k = 12 -> "(" \o F \o " -> #false)"
+    [] k = 13 -> "(" \o F \o " <- " \o G \o ")"
+    [] k = 14 -> "((" \o F \o " -> " \o G \o ") and (" \o G \o " -> " \o F \o "))"
+    [] k = 15 -> "not not " \o "(" \o F \o ")"
+    [] k = 16 -> "exists X (X = " \o T \o " and " \o F \o ")"
+    [] k = 17 -> "exists X$i (X$i = " \o I \o " and " \o F \o ")"
+    [] k = 18 -> "exists X (" \o F \o " and " \o T \o " = X)"
+    [] k = 19 -> "exists X$i (X$i = " \o I \o " and " \o F \o " and X$i = " \o I \o ")"
+    [] k = 20 -> "exists X Y (X = " \o T \o " and Y = " \o T \o " and " \o F \o ")"
+    [] k = 21 -> "exists X$i Y (X$i = " \o I \o " and Y = " \o I \o " and " \o F \o ")"
+    [] k = 22 -> "exists Y (exists N$i X$i (N$i = Y and " \o F \o ") and " \o G \o ")"
+    [] k = 23 -> "forall Y (exists N$i (N$i = Y and " \o F \o ") -> " \o G \o ")"
+    [] k = 24 -> "exists Y (exists N$i Y (N$i = Y and " \o F \o ") and " \o G \o ")"
+    [] k = 25 -> "(exists X (" \o F \o ") and " \o G \o ")"
+    [] k = 26 -> "(" \o G \o " or forall X (" \o F \o "))"
+    [] k = 27 -> "(forall X$i (" \o F \o ") and " \o G \o ")"
+    [] k = 28 -> "(" \o G \o " and exists Y (" \o F \o "))"
+    [] k = 29 -> "exists X (exists Y (" \o F \o "))"
+    [] k = 30 -> "forall X (forall X (" \o F \o "))"
+    [] k = 31 -> "exists X Y N$i (" \o F \o ")"
+    [] k = 32 -> "forall X$i (forall X (" \o F \o "))"
+    [] k = 33 -> T \o " = " \o T
+    [] k = 34 -> T \o " != " \o T
+    [] k = 35 -> T \o " < " \o U \o " <= " \o U
+    [] k = 36 -> "exists X (X = " \o T \o " and exists X (" \o F \o "))"
+    [] k = 37 -> "exists X Y (X = Y and " \o F \o " and X = Y)"
+    [] k = 38 -> "exists X$i N$i (X$i = " \o J \o " and N$i = " \o J \o " and " \o F \o ")"
+    [] k = 39 -> "exists X (X = " \o I \o " and " \o I \o " = X and " \o F \o ")"
+    [] k = 40 -> "forall X (X = " \o T \o " -> " \o F \o ")"
+    [] k = 41 -> "exists X$i (" \o F \o " and X$i = " \o J \o " and " \o G \o " and X$i = " \o J \o ")"
+    [] k = 42 -> "(" \o F \o " <-> " \o F \o ")"
+    [] k = 43 -> "exists X Y$i (X = Y$i and " \o F \o ")"
+    [] k = 44 -> "exists X (X = Y and exists Y Y1 (" \o F \o " and t(X, Y1)))"
+    [] k = 45 -> "forall Y (exists X (X = Y and exists Y Y1 (t(X, Y) and " \o F \o ")))"
+    [] k = 46 -> "exists X$i (X$i = N$i + 1 and exists N$i N1$i (" \o F \o " and p(X$i + N1$i)))"
+    [] k = 47 -> "exists X (X = " \o T \o " and forall Y Y1 X$i (t(X, Y) -> " \o F \o "))"
+    [] k = 48 -> "exists X Y (X = Y1 and Y = X and exists Y1 (t(X, Y1) and " \o F \o "))"
+    [] k = 49 -> "exists X$s (X$s = S$s and exists S$s (t(X$s, S$s) and " \o F \o "))"
+RedexCase(n, sd) ==
+  LET k == (n + Seed0) % NRedex
+      f == Form(sd, 1, 1)
+      g == Form(f.sd, 1, 1)
+      t == GenTerm(g.sd, 1)
+      u == GenTerm(t.sd, 1)
+      i == IntTerm(u.sd, 1)
+      j == IntTerm(i.sd, 2)
+      core == Redex(k, f.s, g.s, t.s, u.s, i.s, j.s)
+      \* sometimes put the redex under a connective or quantifier, so that strategies differ
+      w == Val(j.sd) % 6
+      h == Form(Nx(j.sd), 1, 1)
+  IN [id |-> "x" \o ToString(n),
+      f |-> IF w = 0 THEN "(" \o h.s \o " and " \o core \o ")"
+            ELSE IF w = 1 THEN "forall Y (" \o core \o " -> " \o h.s \o ")"
+            ELSE IF w = 2 THEN "not (" \o core \o ")"
+            ELSE core]
+
 Case(n, sd) ==
   CASE Mode = "program" -> ProgramCase(n, sd)
     [] Mode = "sysrule" -> SysCase(n)
+    [] Mode = "sysnest" -> NestCase(n)
+    [] Mode = "sysnames" -> NameCase(n)
+    [] Mode = "formula" -> FormulaCase(n, sd)
+    [] Mode = "subst" -> SubstCase(n, sd)
+    [] Mode = "redex" -> RedexCase(n, sd)
 
 VARIABLES n, sd
 Init == n = 0 /\ sd = Start
